@@ -406,16 +406,16 @@ func ipv4AddrsDecoder(r io.Reader, val interface{}, _ *[8]byte,
 		var (
 			numAddrs = int(l / ipv4AddrEncodedSize)
 			addrs    = make([]*net.TCPAddr, 0, numAddrs)
-			ip       [4]byte
-			port     [2]byte
 		)
 		for len(addrs) < numAddrs {
-			_, err := r.Read(ip[:])
-			if err != nil {
+			var (
+				ip   [4]byte
+				port [2]byte
+			)
+			if _, err := io.ReadFull(r, ip[:]); err != nil {
 				return err
 			}
-			_, err = r.Read(port[:])
-			if err != nil {
+			if _, err := io.ReadFull(r, port[:]); err != nil {
 				return err
 			}
 			addrs = append(addrs, &net.TCPAddr{
@@ -486,16 +486,16 @@ func ipv6AddrsDecoder(r io.Reader, val interface{}, _ *[8]byte,
 		var (
 			numAddrs = int(l / ipv6AddrEncodedSize)
 			addrs    = make([]*net.TCPAddr, 0, numAddrs)
-			ip       [16]byte
-			port     [2]byte
 		)
 		for len(addrs) < numAddrs {
-			_, err := r.Read(ip[:])
-			if err != nil {
+			var (
+				ip   [16]byte
+				port [2]byte
+			)
+			if _, err := io.ReadFull(r, ip[:]); err != nil {
 				return err
 			}
-			_, err = r.Read(port[:])
-			if err != nil {
+			if _, err := io.ReadFull(r, port[:]); err != nil {
 				return err
 			}
 			addrs = append(addrs, &net.TCPAddr{
@@ -582,12 +582,10 @@ func torV3AddrsDecoder(r io.Reader, val interface{}, _ *[8]byte,
 			p        [2]byte
 		)
 		for len(addrs) < numAddrs {
-			_, err := r.Read(ip[:])
-			if err != nil {
+			if _, err := io.ReadFull(r, ip[:]); err != nil {
 				return err
 			}
-			_, err = r.Read(p[:])
-			if err != nil {
+			if _, err := io.ReadFull(r, p[:]); err != nil {
 				return err
 			}
 			onionService := tor.Base32Encoding.EncodeToString(ip[:])
